@@ -1,12 +1,12 @@
 (** C06 — string split iterators yield exactly the pieces std's split family yields.
     Statements only.
 
-    Non-empty delimiters (arbitrary byte strings, hence every &str / char delimiter):
-    proved below for every input.
-    NOT YET PROVED (model + correspondence only): the EMPTY delimiter
-    ([] :: one piece per char ++ [[]]), which needs the UTF-8 char decomposition
-    of Spec/Utf8.v; and that the re-slicing indices are char boundaries (C01/C03). *)
+    Non-empty delimiters (arbitrary byte strings, hence every &str / char delimiter) and the
+    EMPTY delimiter (on valid UTF-8: an empty piece, one piece per character [segs], a final
+    empty piece) are proved below for every input.  That the re-slicing indices are char
+    boundaries (so str_up_to / str_from cannot panic) is C01_find_offset_is_boundary. *)
 From KV Require Import Base.Prelude Model.Search Spec.Search Model.Split Spec.Split Proofs.SplitProofs.
+From KV Require Import Spec.Utf8 Proofs.SplitEmptyProofs.
 Local Open Scope nat_scope.
 
 (** [split]: running [next] to exhaustion ends within [split_fuel] steps and yields the
@@ -53,6 +53,26 @@ Theorem C06_rsplit_remainder : forall d, d <> [] -> forall k h ps s,
   (s_state s = SFinished /\ s_this s = [] /\ join d (rev ps) = h).
 Proof. exact rsplit_remainder. Qed.
 
+(** the empty delimiter: std yields "", every char, "" (split), the same backwards (rsplit),
+    and without the final "" for the terminator forms; [segs h = Some es] says h is valid UTF-8
+    with characters es *)
+Theorem C06_split_empty_exhaust : forall h es, segs h = Some es ->
+  collect split_next (split_fuel h) (split_init h []) = Some ([] :: es ++ [[]]).
+Proof. exact split_empty_exhaust. Qed.
+Theorem C06_rsplit_empty_exhaust : forall h es, segs h = Some es ->
+  collect split_next_back (split_fuel h) (split_init h []) = Some ([] :: rev es ++ [[]]).
+Proof. exact rsplit_empty_exhaust. Qed.
+Theorem C06_split_terminator_empty_exhaust : forall h es, segs h = Some es ->
+  collect term_next (split_fuel h) (term_init h []) = Some ([] :: es).
+Proof. exact split_terminator_empty_exhaust. Qed.
+Theorem C06_rsplit_terminator_empty_exhaust : forall h es, segs h = Some es ->
+  collect rterm_next (split_fuel h) (term_init h []) = Some ([] :: rev es).
+Proof. exact rsplit_terminator_empty_exhaust. Qed.
+
+Print Assumptions C06_split_empty_exhaust.
+Print Assumptions C06_rsplit_empty_exhaust.
+Print Assumptions C06_split_terminator_empty_exhaust.
+Print Assumptions C06_rsplit_terminator_empty_exhaust.
 Print Assumptions C06_split_exhaust.
 Print Assumptions C06_rsplit_exhaust.
 Print Assumptions C06_split_terminator_exhaust.
